@@ -14,7 +14,7 @@ import sys
 VERIF = os.path.dirname(os.path.dirname(os.path.abspath(__file__)))
 REPO = os.environ.get("VERIF_REPO", "/repo")
 SRC_REL = os.path.join("conf", "p4", "bin", "p4info.txt")
-OUT = os.path.join(VERIF, "coq", "Gen", "P4Info_gen.v")
+OUT = os.path.join(os.environ.get("VERIF_COQ_DIR", os.path.join(VERIF, "coq")), "Gen", "P4Info_gen.v")
 
 
 class P4InfoSyntaxError(Exception):
